@@ -763,6 +763,25 @@ def action_abstract(a: tuple) -> str:
     return "+".join(parts)
 
 
+FAMILY = {"a": "show_all", "slash": "jump", "question_mark": "info_jump", "o": "load", "s": "save", "q": "quit", "r": "reset", "left": "leave", "escape": "leave", "y": "set_bool", "n": "set_bool"}
+
+
+def action_family(a: tuple, target_kind: Optional[str] = None) -> str:
+    """coarse family of a compound action for signatures: leave | activate | input | set_bool | reset | show_all | jump |
+    info_jump | load | save | quit"""
+    if a[0] not in ("row", "key"):
+        return str(a[0])
+    key = a[2] if a[0] == "row" else a[1]
+    ans = a[3:] if a[0] == "row" else a[2:]
+    if a[0] == "row" and key == "enter" and target_kind is not None and target_kind.startswith("back"):
+        return "leave"
+    if key in FAMILY:
+        return FAMILY[key]
+    if any(x[0] == "text" for x in ans):
+        return "input"
+    return "activate"  # Enter / Space
+
+
 def fmt_history(h: Any) -> str:
     return " ; ".join(repr(tuple(a)) for a in h)
 
